@@ -93,6 +93,23 @@ def check_arith(acc, pendulum, u, kw, variants=True):
     if not variants:
         return
     td = dt_.timedelta(**kw)
+    # the same amounts as pendulum Durations, and as what Time.diff() returns (an AbsoluteDuration)
+    if not td.days:
+        from pendulum.duration import AbsoluteDuration
+        forms = [("plus_Duration", lambda: t + pendulum.duration(**kw), exp), ("minus_Duration", lambda: t - pendulum.duration(**kw), exp_s)]
+        if A >= 0:
+            ad = AbsoluteDuration(**kw)
+            forms += [("plus_AbsoluteDuration", lambda: t + ad, exp), ("add_timedelta(AbsoluteDuration)", lambda: t.add_timedelta(ad), exp),
+                      ("minus_AbsoluteDuration", lambda: t - ad, exp_s)]
+            t2 = pendulum.Time(*us_fields((u + A) % DAYUS))
+            if u + A < DAYUS:
+                forms.append(("plus_diff_result", lambda: t + t.diff(t2), exp))
+        for name, fn, expv in forms:
+            got, _x = attempt(fn)
+            acc.c["evaluations"] += 1
+            acc.c["transitions"] += 1
+            if got != ["Time", expv]:
+                acc.mismatch(name, "value", case, got, ["Time", expv])
     for name, fn, expv in (("plus_td", lambda: t + td, exp), ("minus_td", lambda: t - td, exp_s)):
         acc.c["evaluations"] += 1
         acc.c["transitions"] += 1
